@@ -391,6 +391,22 @@ def build_cases(rng, tier, cov):
             u, w = gen_pair(rng, 0, {})
             add("cmpall", 0, flat(u, w), "cmpall", flat(u, w), "cmp", (sg(fr(u) - fr(w)), sg(abs(fr(u)) - abs(fr(w)))))
         add("q.preds", 1, flat(x, y), "q_preds", flat(x, y), "raw", "%d %d %d %d" % (fx == 0, fx == 1, fx == -1, fx == fy), nontrivial=False)
+    # ---- exhaustive sweep of all pairs of small canonical fractions (every shortcut branch with small values)
+    N = 4 if tier == "quick" else 12
+    small = [(n, d) for d in range(1, N + 1) for n in range(-N, N + 1) if gcd(n, d) == 1]
+    cov["exhaustive small fractions |n|,d <="] = N
+    for x in small:
+        fx = fr(x)
+        for y in small:
+            fy = fr(y)
+            for sym, (mop, f) in BIN.items():
+                if sym == "/" and y[0] == 0:
+                    exp, kind = None, "throw"
+                else:
+                    exp, kind = f(fx, fy), "rat"
+                add("op" + sym, 1, flat(x, y), mop, flat(x, y), kind, exp)
+                add("op" + sym + "=", 1, flat(x, y), mop + "in", [0] + flat(x, y), kind, exp)
+            add("cmpall", 1, flat(x, y), "cmpall", flat(x, y), "cmp", (sg(fx - fy), sg(abs(fx) - abs(fy))))
     # ---- three-operand wrappers
     for i in range(per * 2):
         red = 0 if i % 5 == 4 else 1
